@@ -11,17 +11,23 @@ import torch
 
 from tjv.rt import gen
 from tjv.rt.aggs import make_agg
-from ._autojac import AGG_TOL, mtl_kwargs, mtl_reference, selection_ambiguous, set_pregrads
+from ._autojac import (AGG_TOL, SHARED_MODES, TASKS_MODES, mtl_kwargs, mtl_reference, mtl_restrict, selection_ambiguous,
+                       set_pregrads)
 
 RULE = ("random trunk/heads programs (gen.build_mtl: 1..3 shared params, dense or sparse trunk producing 1..3 "
         "features of any shape, 1..4 heads with own / overlapping / empty parameter groups, a leaf not requiring "
         "grad and an unused leaf) x row-order-sensitive aggregator (Constant distinct/signed, Krum, GradDrop(leak) "
         "under a fixed seed, UPGrad(pref_vector)) + Mean x chunk size x explicit/defaulted/tuple/one-shot-iterator/"
-        "generator/dict-keys parameter containers x single-tensor or list `features` x pre-existing .grad x dtype. "
+        "generator/dict-keys parameter containers x WHICH parameters are listed (shared: all / an explicitly EMPTY "
+        "container = frozen trunk / a strict subset; tasks: as generated / every task empty / the first, the last or a "
+        "random set of positions listing zero parameters / random subsets; the product includes 'everything empty' and "
+        "'empty shared with defaulted tasks'; unlisted parameters must stay untouched) x single-tensor or list "
+        "`features` x pre-existing .grad x dtype. "
         "Oracle: per-loss torch.autograd.grad on a twin graph: task params get the sum over the tasks listing them, "
         "shared params the slices of A(J), row i = d losses[i]/d shared. distinct = (program trace, aggregator, "
-        "chunk, containers); non-trivial = J has >=2 pairwise different non-zero rows (a permutation of the tasks "
-        "is visible) and >=2 columns")
+        "chunk, containers, listing); non-trivial = J has >=2 pairwise different non-zero rows (a permutation of "
+        "the tasks is visible) and >=2 columns, or - when no shared parameter is listed - >=2 task parameters have "
+        "a non-zero expected update")
 BOUNDS = "<=3 shared params, <=3 features, <=4 tasks, <=3 params per task, tensor dims <=4 of size <=3"
 EXHAUSTIVE = ""
 
@@ -39,7 +45,7 @@ CONTAINERS = ["list", "list", "default", "tuple", "iter", "gen", "dictkeys"]
 
 
 def cases(tier, seed, focus=None):
-    n = 200 if tier == "quick" else 5000
+    n = 300 if tier == "quick" else 6000
     rng = random.Random(3000 + seed)
     for i in range(n):
         agg = AGGS[i % len(AGGS)]
@@ -52,6 +58,20 @@ def cases(tier, seed, focus=None):
             sp = "list"  # GradDrop draws one random number per COLUMN: the column order must be the oracle's
         if i % 10 == 0:  # regression family of finding F3: everything given as one-shot iterables
             tp, sp = rng.choice(["iter", "gen"]), rng.choice(["iter", "gen"])
+        # which parameters are listed: one third of the cases edits the lists (every mode of both axes is hit in
+        # the quick tier; an axis given by default cannot be edited)
+        smode, tmode = "all", "asis"
+        if i % 3 == 1:
+            smode = SHARED_MODES[(i // 3) % len(SHARED_MODES)]
+            tmode = rng.choice(TASKS_MODES)
+            if smode == "all" and tmode == "asis":
+                tmode = rng.choice(TASKS_MODES[1:])
+            if sp == "default" and smode != "all":
+                sp = rng.choice(["list", "tuple", "iter", "gen", "dictkeys"])
+            if tp == "default" and tmode != "asis" and not (smode == "empty" and rng.random() < 0.5):
+                tp = rng.choice(["list", "tuple", "iter", "gen", "dictkeys"])
+            if tp == "default":
+                tmode = "asis"
         yield {
             "prog": {"seed": rng.randrange(10**9), "n_shared": rng.randint(1, 3), "n_features": rng.randint(1, 3),
                      "n_tasks": n_tasks, "dtype": rng.choice(["float64", "float64", "float32"]),
@@ -63,6 +83,7 @@ def cases(tier, seed, focus=None):
             "pre": rng.choice(["none", "some", "all"]),
             "pre_seed": rng.randrange(10**6),
             "retain": rng.random() < 0.3,
+            "smode": smode, "tmode": tmode,
         }
 
 
@@ -78,8 +99,9 @@ def _call(case, prog, tp, sp):
                  **mtl_kwargs(prog, tp, sp, case["feat"]))
 
 
-def _compare(case, p1, p2, tp, sp):
-    """Run the real call on p1, the oracle on p2; returns (failure dict or None, J)."""
+def _compare(case, p1, p2, tp, sp, info=None):
+    """Run the real call on p1, the oracle on p2; returns (failure dict or None, J).  ``info`` (a dict) receives
+    'task_updates': the number of listed task parameters whose expected update is non-zero."""
     t = len(p1.losses)
     dtype = p1.losses[0].dtype
     for p in (p1, p2):
@@ -92,7 +114,10 @@ def _compare(case, p1, p2, tp, sp):
                 "observed": "exception", "expected": "success"}, None
     torch.manual_seed(case["pre_seed"])
     J, upd = mtl_reference(p2, make_agg(case["agg"], t, dtype))
-    if selection_ambiguous(case["agg"], J):  # ties are excluded: the selected rows depend on rounding
+    if info is not None:
+        shared_now = {id(s) for s in p2.shared}
+        info["task_updates"] = sum(1 for k, u in upd.items() if k not in shared_now and bool((u != 0).any()))
+    if J.shape[1] > 0 and selection_ambiguous(case["agg"], J):  # ties are excluded: the selected rows depend on rounding
         return None, None
     rtol, atol = AGG_TOL.get(case["agg"]["name"], gen.tol(dtype))
     if dtype == torch.float32:
@@ -100,7 +125,8 @@ def _compare(case, p1, p2, tp, sp):
     scale = max(1.0, float(J.abs().max())) if J.numel() else 1.0
     atol *= scale
     # shared params that no feature depends on are not discovered by the default
-    reach = torch.autograd.grad([f.sum() for f in p2.features], p2.shared, retain_graph=True, allow_unused=True)
+    reach = torch.autograd.grad([f.sum() for f in p2.features], p2.shared, retain_graph=True,
+                                allow_unused=True) if p2.shared else []
     unreachable = {id(s) for s, g in zip(p2.shared, reach) if g is None}
     shared_ids = {id(s) for s in p2.shared}
     for li, (x1, x2) in enumerate(zip(p1.all_leaves(), p2.all_leaves())):
@@ -125,15 +151,30 @@ def _compare(case, p1, p2, tp, sp):
     return None, J
 
 
-def run_case(case):
-    p1, p2 = gen.build_mtl(case["prog"]), gen.build_mtl(case["prog"])
+def _programs(case):
+    """Twin programs with the case's edit of the listed parameters applied to both."""
+    ps = gen.build_mtl(case["prog"]), gen.build_mtl(case["prog"])
     tp, sp = case["tp"], case["sp"]
-    sig = "|".join(p1.desc) + f"|{case['agg']}|{case['chunk']}|{tp}|{sp}|{case['feat']}|{case['pre']}"
+    smode = case.get("smode", "all") if sp != "default" else "all"  # a defaulted list cannot be edited
+    tmode = case.get("tmode", "asis") if tp != "default" else "asis"
+    for p in ps:
+        mtl_restrict(p, smode, tmode, case["pre_seed"])
+    return ps
+
+
+def run_case(case):
+    p1, p2 = _programs(case)
+    tp, sp = case["tp"], case["sp"]
+    sig = ("|".join(p1.desc) + f"|{case['agg']}|{case['chunk']}|{tp}|{sp}|{case['feat']}|{case['pre']}"
+           f"|{case.get('smode', 'all')}|{case.get('tmode', 'asis')}")
     if make_agg(case["agg"], len(p1.losses), p1.losses[0].dtype) is None:
         return {"ok": True, "sig": sig, "nontrivial": False, "note": "row requirement not met"}
-    fail, J = _compare(case, p1, p2, tp, sp)
+    info = {}
+    fail, J = _compare(case, p1, p2, tp, sp, info)
     nontrivial = False
-    if J is not None and J.shape[0] >= 2 and J.shape[1] >= 2:
+    if J is not None and J.shape[1] == 0:  # no shared parameter listed: the task-specific part is all there is
+        nontrivial = info.get("task_updates", 0) >= 2
+    elif J is not None and J.shape[0] >= 2 and J.shape[1] >= 2:
         rows = [J[i] for i in range(J.shape[0])]
         nontrivial = all(bool((r != 0).any()) for r in rows) and all(
             not torch.equal(rows[i], rows[j]) for i in range(len(rows)) for j in range(i))
@@ -142,7 +183,7 @@ def run_case(case):
     one_shot = {"iter", "gen"}
     if tp in one_shot or sp in one_shot:
         # is the failure caused by the container kind?  same case with plain lists on fresh twins
-        q1, q2 = gen.build_mtl(case["prog"]), gen.build_mtl(case["prog"])
+        q1, q2 = _programs(case)
         tp2 = "list" if tp in one_shot else tp
         sp2 = "list" if sp in one_shot else sp
         fail2, _ = _compare(case, q1, q2, tp2, sp2)
